@@ -599,14 +599,20 @@ func rule035(r *core.Run) {
 			if !ok || lk.Index != ssa.Value(pp) {
 				return
 			}
-			t := iff.Block().Succs[0]
-			if len(t.Instrs) > 0 && t.Instrs[0] != ssa.Instruction(appendSt) && !core.Reaches(t.Instrs[0], appendSt) {
+			// on the "already there" outcome of the lookup the append is not reached (flags set on that
+			// arm — a helper's `return false` — are followed along the path)
+			if !core.ReachableTrackingFlags(lk, appendSt, map[ssa.Value]bool{lk: true}, nil) {
 				dedup = true
 			}
 		})
 		recorded := false
 		core.Instrs(fn, func(in ssa.Instruction) {
-			if mu, ok := in.(*ssa.MapUpdate); ok && mu.Key == ssa.Value(pp) && core.Dominates(mu, appendSt) {
+			mu, ok := in.(*ssa.MapUpdate)
+			if !ok || mu.Key != ssa.Value(pp) {
+				return
+			}
+			// every way to the append records the prefix first
+			if core.Dominates(mu, appendSt) || !core.ReachableTrackingFlags(nil, appendSt, nil, func(y ssa.Instruction) bool { return y == ssa.Instruction(mu) }) {
 				recorded = true
 			}
 		})
